@@ -109,7 +109,7 @@ PROPS = {
     ),
     'C06': dict(
         standin_ops=['xpath.query.no_panic', 'xpath.mutants', 'xpath.deep'],
-        quick_grids=['xpath.mutants'],
+        quick_grids=['xpath.mutants', 'xpath.deep'],
         verus_units=['eval_ctx', 'func_strings', 'func_lib', 'c05_axes'],
         level='proof',
         trusted_base=TRUSTED_VERUS,
